@@ -25,6 +25,38 @@ def resolve(spec: str):
     return getattr(obj, "__func__", obj)
 
 
+def resolve_all(spec: str):
+    """like resolve, plus wildcards: 'pkg.mod:Class.*' = every function defined in the class body (incl. properties, static/class methods),
+    'pkg.mod:*' = every function and every method of every class defined in that module.  Wildcards make helper functions that a later
+    refactoring introduces preemptible as well (a fixed list would run them atomically)."""
+    import inspect
+    modname, _, qual = spec.partition(":")
+    if not qual.endswith("*"):
+        return [resolve(spec)]
+    mod = importlib.import_module(modname)
+
+    def class_functions(cls):
+        out = []
+        for v in vars(cls).values():
+            if isinstance(v, (staticmethod, classmethod)):
+                v = v.__func__
+            if isinstance(v, property):
+                out.extend(f for f in (v.fget, v.fset) if f is not None)
+            elif inspect.isfunction(v):
+                out.append(v)
+        return out
+    if qual == "*":
+        out = [v for v in vars(mod).values() if inspect.isfunction(v) and v.__module__ == modname]
+        for v in vars(mod).values():
+            if inspect.isclass(v) and v.__module__ == modname:
+                out.extend(class_functions(v))
+        return out
+    obj = mod
+    for part in qual[:-2].split("."):
+        obj = getattr(obj, part)
+    return class_functions(obj)
+
+
 def code_objects(fn):
     """the function's code object plus nested code objects (generators, comprehensions, lambdas)"""
     out = []
@@ -47,16 +79,20 @@ class LineMonitor:
         self.codes = []
         self.missing = []
         self.hits = 0
+        seen = set()
         for s in specs:
             try:
-                fn = resolve(s)
+                fns = resolve_all(s)
             except Exception:
                 self.missing.append(s)
                 continue
-            cs = code_objects(fn)
+            cs = [c for fn in fns for c in code_objects(fn)]
             if not cs:
                 self.missing.append(s)
-            self.codes.extend(cs)
+            for c in cs:
+                if id(c) not in seen:
+                    seen.add(id(c))
+                    self.codes.append(c)
         self.names = {id(c): f"{c.co_name}" for c in self.codes}
 
     def _cb(self, code, line):
